@@ -102,7 +102,46 @@ pub fn gen_pair(ch: &mut Chooser) -> Pair {
     let (mut ia, mut ib) = (0, 0);
     let mut schedule = vec![];
     // scripted openings: the situations in which per-thread or per-process state would be confused
-    match ch.below(10) {
+    match ch.below(12) {
+        10 => {
+            // A binds a *variable* named like a bundled derived form; B keeps using the derived form
+            let (def, use_) = *ch.pick(&[
+                ("(define (unless c x) x)", "(unless #f 6 7)"),
+                ("(define cond 3)", "(cond (#f 1) (else 2))"),
+                ("(define (when a) a)", "(when #t 1 2)"),
+                ("(define let 1)", "(let ((q 1)) q)"),
+                ("(define (case . r) r)", "(case 2 ((1 2) 'low) (else 'high))"),
+            ]);
+            a.splice(0..0, [def.to_string(), "(append '(1) '(2))".to_string()]);
+            b.splice(0..0, [use_.to_string(), "(append '(1) '(2))".to_string()]);
+            schedule.extend([true, true, false, false]);
+            ia = 2;
+            ib = 2;
+            labels.push("a-defines-a-variable-named-like-a-derived-form");
+        }
+        11 => {
+            // many failing operations in A, each leaving several levels of user procedures through an error
+            a.insert(0, "(define (nest n) (if (= n 0) (car 5) (+ 1 (nest (- n 1)))))".to_string());
+            b.splice(0..0, ["(define (sum-to n) (if (= n 0) 0 (+ n (sum-to (- n 1)))))".to_string(), "(sum-to 10)".to_string()]);
+            schedule.extend([true, false, false]);
+            ia = 1;
+            ib = 2;
+            let rounds = 4;
+            for r in 0..rounds {
+                for _ in 0..3 {
+                    a.insert(ia + r * 3, "(nest 24)".to_string());
+                }
+            }
+            // A's failures are spread between further calls in B
+            for _ in 0..rounds {
+                schedule.extend([true, true, true, false]);
+                b.insert(ib, "(list (sum-to 12) (vector-ref (make-vector 3 7) 1))".to_string());
+                ia += 3;
+                ib += 1;
+            }
+            labels.push("a-fails");
+            labels.push("a-fails-deep-many-times");
+        }
         8 => {
             // A and B each run a program file of their own; both directories hold a library of the same name
             a.insert(0, "@file".to_string());
